@@ -549,8 +549,8 @@ class H2Client(e2e.H2Conn):
 # =====================================================================================
 # observations: normalised (status, headers, body) of the probe's response
 # =====================================================================================
-DROP_ALWAYS = {b"date", b"connection", b"keep-alive", b"expires"}
-DROP_CROSS = {b"accept-ranges", b"cache-control", b"transfer-encoding", b"priority"}
+DROP_ALWAYS = {b"date", b"connection", b"keep-alive", b"expires", b"priority"}   # priority: RFC 9218 scheduling hint (h2 only)
+DROP_CROSS = {b"accept-ranges", b"cache-control", b"transfer-encoding"}
 ENV_DROP = {"REMOTE_PORT", "HTTP_CONNECTION", "HTTP_UPGRADE", "HTTP_HTTP2_SETTINGS"}
 ENV_DROP_CROSS = {"SERVER_PROTOCOL"}
 
@@ -1200,7 +1200,7 @@ def gen_rst(ctx):
             if s.startswith("h2r.") and not pooled:
                 continue
             lines.append("rst %s %s" % (op, s))
-    n = 25000 if ctx.quick else 250000
+    n = 16000 if ctx.quick else 250000
     for _ in range(n):
         op = rng.choice(RST_OPS[:5] * 3 + RST_OPS)
         pooled = op in ("release", "h2init")
@@ -1231,7 +1231,8 @@ def gen_rp(ctx):
     from . import c01
     rng = ctx.rng
     lines = []
-    n = 20000 if ctx.quick else 200000
+    nskip = 0
+    n = 14000 if ctx.quick else 200000
     for _ in range(n):
         h2 = rng.random() < 0.4
         op = rng.choice(RECYCLE_OPS if not h2 else ["release", "h2init", "h2init", "resetex"])
@@ -1255,7 +1256,11 @@ def gen_rp(ctx):
             rr = rng.random()
             blk = rng.choice(H1_DIRTY_VALID + H1_DIRTY_BAD) if rr < 0.5 else c01.build(rng, 0.7)
             probe = _hx(blk)
+        if not h2 and b"[" in blk:
+            nskip += 1          # IPv6-literal hosts are not modelled (inet_pton), as in C01
+            continue
         lines.append("rp %s %d %s %s ; %s" % ("h2" if h2 else "h1", opts, op, " ".join(toks), probe))
+    ctx.dist["rp:skipped-ipv6-literal-host"] = nskip
     return lines
 
 
@@ -1274,13 +1279,6 @@ def run_inproc(ctx):
     rst = gen_rst(ctx)
     ctx.differential("reset(h_reset)", [exe], "server", rst, oracle, reset_classify)
     rp = gen_rp(ctx)
-    if ctx.model_ok:
-        # IPv6-literal hosts are not modelled (as in C01): drop what the model marks skip-v6
-        mo, mrc, _ = C.parallel_lines([C.ltmodel_path(), "server"], rp)
-        if mrc == 0 and len(mo) == len(rp):
-            keep = [l for l, o in zip(rp, mo) if "skip-v6" not in o]
-            ctx.dist["rp:skipped-ipv6-literal-host"] = len(rp) - len(keep)
-            rp = keep
     ctx.differential("parse-into-recycled(h_reset)", [exe], "server", rp, oracle, reset_classify)
     return exe
 
@@ -1708,7 +1706,7 @@ def run(ctx):
                         "time-dependent response fields (Date, Expires) and connection-management fields "
                         "(Connection, Keep-Alive; REMOTE_PORT / HTTP_CONNECTION / HTTP_UPGRADE / HTTP_HTTP2_SETTINGS in the CGI "
                         "environment: the request that carried `Upgrade: h2c` keeps those fields) are excluded "
-                        "from the comparison; Accept-Ranges / Cache-Control / Transfer-Encoding / priority and "
+                        "from the comparison, as is the HTTP/2 `priority` scheduling hint; Accept-Ranges / Cache-Control / Transfer-Encoding and "
                         "SERVER_PROTOCOL are excluded between protocol versions only",
                         "Range on HTTP/1.0 is compared against the request without Range"]
 
